@@ -168,3 +168,22 @@ extern "C" void h_http(void)
 	vp_note(1);
 	vp_reach(1);
 }
+
+// format -> parse at a few CONCRETE instants (regression vectors executed by the same engine; nothing symbolic here, the
+// calendar arithmetic is not decided for symbolic instants - see the spec): p0 = instant, p1 = format (0 LONG, 1 SHORT, 2 FULL, 3 HTTP)
+extern "C" void h_format_at(void)
+{
+	static const double T[] = { 0.0, 0.5, -0.25, -86400.5, 1250000000.123, 951782400.0 /* 2000-02-29 */, -62135596800.0 /* 0001-01-01 */, 253402300799.0 /* 9999-12-31T23:59:59 */, -2208988800.75 };
+	static const Date::Format F[] = { Date::LONG, Date::SHORT, Date::FULL, Date::HTTP };
+	double t = T[vp_param(0)]; int fi = vp_param(1);
+	Date d(t);
+	String s = d.toUTCString(F[fi]);
+	Date back(s);
+	double u = back.time();
+	vp_assert(u == u, "the formatted text of a valid instant parses");
+	double fl = floor(t);
+	if (fi == 2) vp_assert(u - t < 0.0011 && t - u < 0.0011, "FULL format round trip is exact to the millisecond");
+	else vp_assert(u == fl || u == t, "LONG / SHORT / HTTP format round trip gives the instant truncated to the second");
+	vp_note((long long)u);
+	vp_reach(1);
+}
